@@ -409,6 +409,9 @@ pub struct RefExec<'a> {
     loops: Vec<(usize, usize, u16)>, // begin, end (inclusive), iterations left
     pub steps: u64,
     pub size_cap: usize,
+    /// units (see val_size) currently on the stack; the reference refuses to hold more than `total_cap`
+    pub stack_units: usize,
+    pub total_cap: usize,
     pub executed_kinds: std::collections::BTreeSet<u8>,
     pub loops_iterated: u64,
     pub jumps_taken: u64,
@@ -437,6 +440,8 @@ impl<'a> RefExec<'a> {
             loops: vec![],
             steps: 0,
             size_cap: 1 << 20,
+            stack_units: 0,
+            total_cap: 1 << 22,
             executed_kinds: Default::default(),
             loops_iterated: 0,
             jumps_taken: 0,
@@ -444,7 +449,9 @@ impl<'a> RefExec<'a> {
     }
 
     fn pop(&mut self) -> Result<RVal, StepErr> {
-        self.stack.pop().ok_or(StepErr::Fail)
+        let v = self.stack.pop().ok_or(StepErr::Fail)?;
+        self.stack_units = self.stack_units.saturating_sub(val_size(&v));
+        Ok(v)
     }
     fn pop_int(&mut self) -> Result<[u8; 32], StepErr> {
         match self.pop()? {
@@ -453,9 +460,11 @@ impl<'a> RefExec<'a> {
         }
     }
     fn push(&mut self, v: RVal) -> Result<(), StepErr> {
-        if val_size(&v) > self.size_cap {
+        let sz = val_size(&v);
+        if sz > self.size_cap || self.stack_units + sz > self.total_cap {
             return Err(StepErr::Budget);
         }
+        self.stack_units += sz;
         self.stack.push(v);
         Ok(())
     }
